@@ -1,6 +1,6 @@
 """Human-written texts for MANIFEST.json."""
 ENGINES = [
-    {"name": "S5-chainsim", "path": "/verif/sim/chainsim", "serves_properties": ["C06", "C07", "C10"],
+    {"name": "S5-chainsim", "path": "/verif/sim/chainsim", "serves_properties": ["C06", "C07", "C10", "C11"],
      "kind_free_text": "whole-node deterministic simulation: three real core.Core (prime/region/zone) in one synctest bubble; seeded scheduler owns mining, head selection (forks/reorgs), delivery, storage (SimDisk) and the worker refresh; rapid tape = replay"},
     {"name": "S2-triesim", "path": "/verif/sim/triesim", "serves_properties": ["C18"],
      "kind_free_text": "seeded trie histories with restart / crash-at-write-prefix / proof-corruption faults against a map model with per-root snapshots"},
@@ -46,5 +46,12 @@ META = {
         "technique": "deterministic whole-node simulation with seeded forks/reorgs; refinement check against a fresh node fed only the winning branch",
         "text": ("Exploration: seeded pairs/trees of branches with spends of pre-fork outputs, outputs created and spent on one branch, coinbase lockups and conversions; after head switches the full chain-state key space is compared with a second node that followed the winning branch directly."),
         "note": "Trusted: image extraction; reorg depth limited by tape length (<= ~10); trimming depths shrunk by the regime but rarely reached in quick runs.",
+    },
+    "C11": {
+        "engine": "S5-chainsim", "design_ref": "DESIGN.md section 4 C11, section 2.6",
+        "technique": "deterministic whole-node simulation with crash injection at prefixes of the recorded global write-op log, restart on the surviving image, recovery compared with the uncrashed run",
+        "text": ("Fault enumeration within sampled histories: each history's global disk write log (all three chain databases, puts/deletes and atomic batch commits in order) is cut at drawn prefixes biased to the block-batch boundaries; the node is restarted on each image with real start-up code, "
+                 "its head is checked against stored state and header commitments, the original chain is re-delivered and the recovered chain state must equal the uncrashed one."),
+        "note": "Crash prefixes are sampled (1..5 per history), not all enumerated; torn batches and reordered writes are outside the engines' contract and not injected; memorydb-backed SimDisk stands in for leveldb/pebble (same write order).",
     },
 }
